@@ -174,7 +174,93 @@ def confirm_native(run, config, ty, kind, L, c1, c2, model):
         run.inconclusive.append('counterexample not reproduced natively: ' + what)
 
 
-def cuts_for(bs, tier):
+def rst_args(ty, p, n, msg, pre, o0):
+    """arguments of h_<ty>_rst: an ARBITRARY internal state (hooks) with p bytes buffered, then reset and hash msg"""
+    bs, dn, fam = TYPES[ty]
+    tail = [Buf('prefill', p, init=pre, writable=False), Sc('p', 64, p), Buf('msg', n, init=msg, writable=False), Sc('len', 64, n),
+            Buf('out1', 512, init=o0[0]), Buf('out2', 512, init=o0[1]), Buf('out3', 512, init=o0[2])]
+    if fam == 'blake':
+        w = 32 if bs == 64 else 64
+        return [Buf('h', w, init=T.var('h', 8 * w), writable=False), Sc('t0', 64, T.zext(T.var('t0', w), 64)), Sc('t1', 64, T.zext(T.var('t1', w), 64))] + tail, ['h', 't0', 't1']
+    if fam == 'skein':
+        return [Buf('x', bs, init=T.var('x', 8 * bs), writable=False), Sc('t0', 64, T.var('t0', 64)), Sc('t1', 64, T.var('t1', 64))] + tail, ['x', 't0', 't1']
+    if fam == 'groestl':
+        return [Buf('cv', bs, init=T.var('cv', 8 * bs), writable=False), Sc('counter', 64, T.var('cnt', 64))] + tail, ['cv', 'cnt']
+    return [Buf('state', 128, init=T.var('h', 1024), writable=False), Sc('datalen', 64, T.var('datalen', 64))] + tail, ['h', 'datalen']
+
+
+def rst_case(run, task):
+    """reset / finalize_reset / in-place finalize_fixed_reset from an arbitrary (chaining value, counters, p buffered bytes):
+    the instance must then hash msg exactly like a new one"""
+    config, ty, p, n = task
+    bs, dn, fam = TYPES[ty]
+    mod = module(config, run)
+    msg, pre = T.var('msg', 8 * n), T.var('pre', 8 * p)
+    o0 = [T.var('o%d' % i, 4096) for i in range(3)]
+    t0 = time.time()
+    one, ex0 = runs(mod, 'h_' + ty, [Buf('msg', n, init=msg, writable=False), Sc('len', 64, n), Buf('out', 512, init=o0[0])])
+    args, svars = rst_args(ty, p, n, msg, pre, o0)
+    res, ex1 = runs(mod, 'h_%s_rst' % ty, args)
+    run.exec_s += time.time() - t0
+    run.note_functions(execu.demangle_hint(f) for f in ex1.funcs_run)
+    run.extra['summarised_calls'] = run.extra.get('summarised_calls', 0) + ex1.stats.get('summaries', 0)
+    ref = by_pc([r for r in one if r.status == 'ret'])
+    if not ref:
+        run.inconclusive.append('%s: one-shot hash did not return (n=%d)' % (ty, n))
+        return
+    base = '%s/%s/reset-from-arbitrary-state/p=%d/n=%d' % (ty, config, p, n)
+    nret = 0
+    for r in res:
+        arm = arm_name(r.pc)
+        if r.status != 'ret':
+            # an arbitrary state need not be reachable, so a panic from it is not by itself a violation; reachable states are the
+            # subject of the reset/finalize_reset cases above. Counted in the evidence.
+            run.extra['rst_paths_not_returning'] = run.extra.get('rst_paths_not_returning', 0) + 1
+            continue
+        nret += 1
+        expd = r_digest(ref.get(arm) or list(ref.values())[0], 'out', dn)
+        pairs = [(r_digest(r, o, dn), expd) for o in ('out1', 'out2', 'out3')]
+        ob = run.equal(base + '/arm[%s]' % arm, pairs, r.pc, timeout_s=60)
+        if ob.status == 'sat':
+            confirm_rst(run, config, ty, p, n, args, svars, ob.model)
+    if not nret:
+        run.inconclusive.append(base + ': no returning path')
+
+
+def r_digest(r, name, dn):
+    return r.mem(r.named[name], 0, dn)
+
+
+def confirm_rst(run, config, ty, p, n, args, svars, model):
+    bs, dn, fam = TYPES[ty]
+    prof, feats = profile_of(config)
+    ah = entry.arg_hex(args, model)
+    import subprocess
+    b = entry.replay_bin(prof, feats)
+
+    def nat(fn, a):
+        q = subprocess.run([b, fn] + a, stdout=subprocess.PIPE, stderr=subprocess.PIPE, text=True)
+        return [l for l in q.stdout.split('\n') if l and not l.startswith('ret=')], q.returncode
+    ev = T.Evaluator(model)
+    msg = ev.val(T.var('msg', 8 * n)).to_bytes(n, 'little') if n else b''
+    one, rc0 = nat('h_' + ty, [msg.hex(), '%x' % n, '00' * 512])
+    o, rc = nat('h_%s_rst' % ty, ah)
+    which = [k for k, i in (('reset', 0), ('finalize_reset', 1), ('finalize_fixed_reset', 2)) if rc != 0 or o[i][:2 * dn] != one[0][:2 * dn]]
+    key = '%s:reset-from-state' % ty
+    what = '%s: %s from a state with non-trivial counters / chaining value does not restore a new instance [p=%d n=%d state: %s]' % (
+        ty, '/'.join(which) or '?', p, n, ', '.join('%s=%#x' % (v, model.get(v, 0)) for v in svars if v in ('t0', 't1', 'cnt', 'datalen')))
+    if which:
+        run.violation(key, what, run.write_replay(key + what, {'type': ty, 'kind': 'reset-from-state', 'entry': 'h_%s_rst' % ty, 'args': ah, 'profile': prof}))
+    else:
+        run.inconclusive.append('counterexample not reproduced natively: ' + what)
+
+
+def rst_chunk(run, ts):
+    for t in ts:
+        rst_case(run, t)
+
+
+def cuts_for(bs, tier, fam=''):
     """(L, c1, c2): piece lengths 0, 1, block-1, block, block+1, many blocks at buffer fills p"""
     out = set()
     ps = (0, 1, bs - 1) if tier == 'quick' else range(bs)
@@ -186,6 +272,13 @@ def cuts_for(bs, tier):
                 out.add((p + mid + tail, p, p + mid))
     if tier == 'quick':
         out = {x for x in out if x[0] <= 3 * bs + bs + 6}
+    # one LONG piece (a "bulk" path taken only by large slices must frame the blocks like the ordinary one): the piece ends
+    # exactly on a block boundary / one byte past it, with and without buffered bytes before it
+    for p in (0, 1, bs - 1):
+        for big in (((512 // bs,) if tier == 'quick' else (256 // bs, 512 // bs, 1024 // bs)) if fam != 'skein' else ((3,) if tier == 'quick' else (3, 4))):
+            out.add((big * bs, p, big * bs))
+            out.add((big * bs + 1 + p, p, big * bs + 1))
+            out.add((p + big * bs + 7, p, p + big * bs))
     # cut points AFTER whole blocks have been compressed (clone / reset of a state whose counters are non-zero)
     for c1 in ((bs, bs + 1, 2 * bs + 1) if tier == 'quick' else (bs, bs + 1, 2 * bs - 1, 2 * bs, 2 * bs + 1, 3 * bs + 1)):
         out.add((c1 + bs + 2, c1, c1 + 1))
@@ -203,9 +296,15 @@ def body(run, a):
     module(config, run)
     tasks = []
     for ty, (bs, dn, fam) in TYPES.items():
-        for (L, c1, c2) in cuts_for(bs, run.tier):
+        for (L, c1, c2) in cuts_for(bs, run.tier, fam):
             tasks.append((config, ty, L, c1, c2))
     check.parallel(run, chunk, [tasks[i:i + 6] for i in range(0, len(tasks), 6)])
+    rtasks = []
+    for ty, (bs, dn, fam) in TYPES.items():
+        for p in ((0, 1, bs - 1) if run.tier == 'quick' else (0, 1, 7, bs // 2, bs - 9, bs - 8, bs - 1)):
+            for n in ((0, 1, bs + 1) if run.tier == 'quick' else (0, 1, bs - 1, bs, bs + 1, 2 * bs + 3)):
+                rtasks.append((config, ty, p, n))
+    check.parallel(run, rst_chunk, [rtasks[i:i + 5] for i in range(0, len(rtasks), 5)])
     # canary: dropping the middle piece must change the digest term (the comparison is not vacuous)
     mod = module(config, run)
     L = 70
@@ -217,9 +316,10 @@ def body(run, a):
     b_ = [r for r in two if r.status == 'ret'][0]
     st, model, dt = check.solve_neq([(a_.mem(a_.named['out'], 0, 32), b_.mem(b_.named['out'], 0, 32))], (), 30)
     run.canary('digest terms of two different messages are distinguished (uninterpreted compression does not collapse them)', st == 'sat')
-    run.bounds = {'types': sorted(TYPES), 'piece lengths': '0, 1, block-p-1, block-p, block-p+1, block, block+1, 2*block-p, 2*block, 3*block+1 followed by a tail of 0 or 5 bytes',
+    run.bounds = {'types': sorted(TYPES), 'piece lengths': '0, 1, block-p-1, block-p, block-p+1, block, block+1, 2*block-p, 2*block, 3*block+1 followed by a tail of 0 or 5 bytes; long pieces of 512 bytes (thorough: 256, 512, 1024 bytes; Skein: 3 (3, 4) blocks, real Threefish core) ending on / just past a block boundary after p buffered bytes',
                   'buffer fill p before the piece': '0, 1, block-1 (quick) / all (thorough)', 'message bytes': 'symbolic', 'cases': len(tasks),
-                  'operations': 'three updates; clone at c1 (original, clone, and a second clone that must not see later updates); reset and finalize_reset after junk',
+                  'operations': 'three updates; clone at c1 (original, clone, and a second clone that must not see later updates); reset and finalize_reset after junk; reset / finalize_reset / finalize_fixed_reset from an ARBITRARY internal state (chaining value and all counters symbolic, p bytes buffered) followed by update(n bytes)',
+                  'reset-from-state cases': len(rtasks),
                   'outside': 'other piece lengths; longer histories (each history is a composition of these steps from a state that C08 shows to depend on the absorbed message only)'}
     run.assumptions += ['compression functions are uninterpreted (BLAKE put_block, Groestl input / output transformation, JH f8); their conformance is C04/C06/C07',
                         'Skein runs its real Threefish core', 'LLVM back end and CPU trusted; panic=abort']
